@@ -303,7 +303,7 @@ int main(int argc, char** argv) {
         // the worker must be where the model thinks it is: idle for Call, parked otherwise
         bool feasible;
         { std::unique_lock<std::mutex> lk(G); W& w0 = *ws[t]; feasible = (act == "Call") ? (!w0.in_call && !w0.has_cmd && w0.parked_at < 0) : (w0.parked_at >= 0); }
-        int at = !feasible ? -3 : (act == "Call") ? step(t, &rn, 2000) : step(t, nullptr, 2000);
+        int at = !feasible ? -3 : (act == "Call") ? step(t, &rn, 8000) : step(t, nullptr, 8000);
         if (at == TIMEOUT || at == -3) { skip_rest = true; ++n_lost; }
         std::unique_lock<std::mutex> lk(G);
         W& w = *ws[t];
